@@ -51,7 +51,7 @@ fn kf(pos: f32, a: Option<f32>, k: Option<i32>, d: Option<f64>, e: Option<u8>) -
     Kf { pos, a, k, d, easing: e }
 }
 
-/// 12 shapes; `variant` 0 uses Linear/custom polynomial easings, 1 uses built-in Bezier easings
+/// 14 shapes; `variant` 0 uses Linear/custom polynomial easings, 1 uses built-in Bezier easings
 /// (Ease / InOutCubic / OutBack) in the same places.
 pub fn pool(variant: u8) -> Vec<(&'static str, Vec<TlSpec>)> {
     let e = |i: u8| -> u8 {
@@ -92,6 +92,8 @@ pub fn pool(variant: u8) -> Vec<(&'static str, Vec<TlSpec>)> {
         ),
         ("partial-k-d", vec![one(vec![kf(0.0, None, Some(5), Some(0.5), None), kf(0.75, None, Some(505), Some(8.0), Some(e(1)))], e(2), t(1.0, 0.0, Rep::None, false))]),
         ("empty-merged-list", vec![]),
+        ("infinite-delay-equals-cycle", vec![one(vec![kf(0.0, Some(-20.0), Some(-200), None, None), kf(1.0, Some(60.0), Some(300), None, None)], e(0), t(0.5, 0.5, Rep::Infinite, false))]),
+        ("times-2-delayed", vec![one(vec![kf(0.0, Some(5.0), None, None, None), kf(0.5, Some(45.0), None, None, Some(e(1))), kf(1.0, Some(-15.0), None, None, None)], e(0), t(0.5, 0.25, Rep::Times(2), false))]),
     ]
 }
 
@@ -613,9 +615,10 @@ pub fn run(run: Run, prop: Prop) -> ! {
     // configurations: all 144 (X shape, Y shape); easing variant alternates in quick, both in thorough;
     // initial state X (animated from non-default initial values) or U1 (every 5th config)
     let mut cfgs: Vec<(usize, usize, u8, S4)> = vec![];
-    for xi in 0..12 {
-        for yi in 0..12 {
-            let idx = xi * 12 + yi;
+    let np = pool(0).len();
+    for xi in 0..np {
+        for yi in 0..np {
+            let idx = xi * np + yi;
             let init = if idx % 5 == 4 { S4::U1 } else { S4::X };
             if thorough {
                 cfgs.push((xi, yi, 0, init));
@@ -687,7 +690,7 @@ pub fn run(run: Run, prop: Prop) -> ! {
     cov.insert("traces_validated_against_impl".into(), json!(acc.histories));
     cov.insert("evaluations".into(), json!(acc.checks));
     cov.insert("distinct_nontrivial".into(), json!(acc.nontrivial));
-    cov.insert("rule".into(), json!(format!("{} animator configurations (X and Y timelines from a pool of 12 shapes: finite, to-only, mid-keyframe-only, delayed, Times 1, reversing, infinite, infinite-reversing-delayed, merged disjoint finite+infinite, merged overlapping, partial, empty merged list; two un-animated states; Linear/polynomial or built-in Bezier easings; non-default initial values; initial state X or U1) x ALL histories of length 1..={} over the alphabet [{}] (a state is the history: the real animator is rebuilt and replayed; clauses are evaluated on the last operation of each history, so every operation of every history is checked once) + deviation-bounded pass: default advance(1/4), all histories of length <= {} with <= {} deviations. {}", cfgs.len(), depth, ops.iter().map(|o| o.name()).collect::<Vec<_>>().join(", "), dev_len, dev_k, match prop {
+    cov.insert("rule".into(), json!(format!("{} animator configurations (X and Y timelines from a pool of 14 shapes: finite, to-only, mid-keyframe-only, delayed, Times 1, reversing, infinite, infinite-reversing-delayed, merged disjoint finite+infinite, merged overlapping, partial, empty merged list, infinite with delay = cycle, delayed Times 2; two un-animated states; Linear/polynomial or built-in Bezier easings; non-default initial values; initial state X or U1) x ALL histories of length 1..={} over the alphabet [{}] (a state is the history: the real animator is rebuilt and replayed; clauses are evaluated on the last operation of each history, so every operation of every history is checked once) + deviation-bounded pass: default advance(1/4), all histories of length <= {} with <= {} deviations. {}", cfgs.len(), depth, ops.iter().map(|o| o.name()).collect::<Vec<_>>().join(", "), dev_len, dev_k, match prop {
         Prop::C04 => "Oracle: current_values bit-identical before/after every set_state; same-state set_state leaves time, pause record and is_ended unchanged. non-trivial = set_state calls that change the state",
         Prop::C05 => "Oracle: RefAnimator stepped alongside (current_state, time in state via hook, live pause record via hook, values = state's merged timeline started from the values observed at entry, evaluated at the time in state; un-animated fields bit-identical). non-trivial = operations after which the current state animates at least one property",
         Prop::C06 => "Oracle: the history and its normal form (consecutive advances merged, zero advances and same-state changes dropped) end with bit-identical values, state and is_ended; advance(0) is a no-op. non-trivial = histories that differ from their normal form",
